@@ -191,21 +191,28 @@ def fresh_baselines():
     from ..run import HERE, REPO, PY
     td = tempfile.mkdtemp(prefix="rtfmon-c14base-")
     procs = []
-    env = dict(os.environ, PYTHONHASHSEED="0", POLARS_MAX_THREADS="1")
+    # "a fresh interpreter" means any fresh interpreter: the reference runs under another string-hash seed than
+    # the histories (PYTHONHASHSEED=0), and a second reference under a third seed has to agree with it
     for name in NAMES:
         sp = os.path.join(td, name + ".json")
         json.dump(S.strip_meta(POOL[name]), open(sp, "w"))
-        op = os.path.join(td, name + ".out.json")
-        p = subprocess.Popen([PY, "-c", BASELINE_SNIPPET, HERE, os.path.join(REPO, "src"), sp, op], env=env,
-                             stdout=subprocess.DEVNULL, stderr=subprocess.PIPE)
-        procs.append((name, p, op))
+        for tag, hs in (("", "4242"), (".alt", "977")):
+            env = dict(os.environ, PYTHONHASHSEED=hs, POLARS_MAX_THREADS="1")
+            op = os.path.join(td, name + tag + ".out.json")
+            p = subprocess.Popen([PY, "-c", BASELINE_SNIPPET, HERE, os.path.join(REPO, "src"), sp, op], env=env,
+                                 stdout=subprocess.DEVNULL, stderr=subprocess.PIPE)
+            procs.append((name + tag, p, op))
     out = {}
     for name, p, op in procs:
         try:
-            _, err = p.communicate(timeout=120)
+            _, err = p.communicate(timeout=180)
             out[name] = json.load(open(op))
         except Exception as e:  # noqa
             out[name] = {"ok": False, "exc": "BaselineFailed", "msg": repr(e)[:200]}
+    for name in NAMES:
+        alt = out.pop(name + ".alt")
+        if alt != out[name]:
+            out[name]["hash_seed_dependent"] = True
     shutil.rmtree(td, ignore_errors=True)
     return out
 
@@ -483,6 +490,9 @@ def run_shard(desc, ctx):
     base = desc["baselines"]
     ctx.count("fresh_interpreter_baselines", sum(1 for b in base.values() if b["ok"] or b.get("exc") == "ValueError"))
     for name, b in base.items():
+        if b.get("hash_seed_dependent") and desc["shard"] == 0:
+            ctx.violation(f"pool document {name}: two fresh interpreters with different PYTHONHASHSEED produce different "
+                          "results", {"pool": name}, None)
         expect_raise = bool(POOL[name].get("_raises"))
         if b["ok"] == expect_raise and desc["shard"] == 0:
             ctx.violation(f"pool document {name}: fresh interpreter {'encoded' if b['ok'] else 'raised ' + b.get('exc', '')}"
